@@ -291,6 +291,15 @@ func (m *c02Mon) after(h *H, s *step) {
 		}
 	}
 	if s.R.OK {
+		// whatever is forwarded must be a token the independent verifier accepts
+		for _, hv := range s.R.Headers {
+			if strings.EqualFold(hv.K, w.Cfg.GetIdToken().GetHeader()) {
+				tok := strings.TrimPrefix(hv.V, w.Cfg.GetIdToken().GetPreamble()+" ")
+				if v := sim.VerifyToken(tok, w.IdP.Keys); !v.SigOK || v.Claims == nil || !sim.AudContains(v.Claims, w.Opts.ClientID) {
+					c.Violation("forwarded-token-not-valid", "step #%d forwards an ID token that does not verify under the configured keys / audience: %s", s.N, v.Why)
+				}
+			}
+		}
 		var sid string
 		if len(s.Presented) > 0 {
 			sid = s.Presented[0]
@@ -403,21 +412,93 @@ func c02Each(c *sim.Case) {
 	c.FP(f.name, onRefresh, st, keyKind)
 }
 
+// c02Concurrent: two checks on the same expired session run under the harness-owned scheduler while the provider
+// answers the refresh with a parseable, unexpired but unacceptable ID token; in no interleaving may either check
+// forward or bind it.
+func c02Concurrent(c *sim.Case) {
+	combo := sim.Pick(c, "combo", 16)
+	store := []string{"memory", "redis"}[combo%2]
+	fi := (combo / 2) % 4
+	second := combo / 8 // 0: second check is a plain request, 1: it is a refresh as well
+	bad := []forge{{"foreign-key-right-kid", nil}, {"aud-foreign", nil}, {"payload-edited-under-signature", nil}, {"alg-none", nil}}[fi].name
+	var f forge
+	for _, x := range forges {
+		if x.name == bad {
+			f = x
+		}
+	}
+	ho := histOpts{o: sim.WorldOpts{Store: store, AccessToken: true, Logout: true}, idTTL: 600e9, expIn: 300}
+	h := ho.build(c)
+	defer h.w.Close()
+	w := h.w
+	b := h.bs[0]
+	if lr := b.Login("/app"); lr.Final == nil || !lr.Final.OK {
+		c.Violation("setup-login-failed", "set-up login failed: %s", lr.Err)
+	}
+	w.Clock.Advance(601e9)
+	w.IdP.Push(&sim.Behaviour{Name: f.name, Rotate: true, ExpiresIn: 3600, Mutate: f.f})
+	if second == 1 {
+		w.IdP.Push(&sim.Behaviour{Name: f.name, Rotate: true, ExpiresIn: 3600, Mutate: f.f})
+	}
+	cookie := b.CookieHeader()
+	mk := func() *sim.Resp {
+		return w.Check(sim.Req{Scheme: "https", Host: w.AppHost, Path: "/app", Headers: map[string]string{"cookie": cookie}})
+	}
+	s := &scheduler{}
+	t1 := &schedTask{name: "C1", resume: make(chan struct{}), fn: mk}
+	t2 := &schedTask{name: "C2", resume: make(chan struct{}), fn: mk}
+	s.tasks = []*schedTask{t1, t2}
+	w.Yield = s.yield
+	s.run(func(n int) int { return sim.Pick(c, "sched", n) })
+	w.Yield = nil
+	c.Logf("store=%s forged=%s schedule: %s", store, f.name, strings.Join(s.trace, " "))
+	for _, t := range s.tasks {
+		if t.resp.Panic != nil {
+			continue
+		}
+		if t.resp.OK {
+			for _, hv := range t.resp.Headers {
+				if strings.EqualFold(hv.K, w.Cfg.GetIdToken().GetHeader()) {
+					tok := strings.TrimPrefix(hv.V, w.Cfg.GetIdToken().GetPreamble()+" ")
+					v := sim.VerifyToken(tok, w.IdP.Keys)
+					if !v.SigOK || v.Claims == nil || !sim.AudContains(v.Claims, w.Opts.ClientID) {
+						c.Violation("forwarded-token-not-valid:concurrent", "check %s forwarded the unacceptable ID token (%s) that a concurrent refresh had received but not yet validated", t.name, f.name)
+					}
+					if exp, ok := sim.ExpOf(v.Claims); ok && int64(exp) < w.Clock.Now().Unix() {
+						c.Violation("expired-token-forwarded:concurrent", "check %s answered OK with an expired ID token while a refresh was in flight", t.name)
+					}
+				}
+			}
+		}
+	}
+	// what is bound afterwards must be acceptable too
+	for _, sc := range w.Store.Snapshot(0) {
+		if sc.Op == "SetTokenResponse" && sc.Tok != nil && sc.Err == nil {
+			if v := sim.VerifyToken(sc.Tok.IDToken, w.IdP.Keys); !v.SigOK || !sim.AudContains(v.Claims, w.Opts.ClientID) {
+				c.Violation("bound-token-bad-signature:"+f.name, "an unacceptable ID token (%s) was bound to the session", f.name)
+			}
+		}
+	}
+	c.NonTrivial()
+	c.FP(store, f.name, second, strings.Join(s.trace, " "))
+}
+
 func TestC02(t *testing.T) {
 	r := sim.NewRun(t, "C02")
 	defer r.Finish()
-	r.Rule = fmt.Sprintf("token-endpoint answers from an adversarial grammar of %d forgery classes (alg none x3, HS256 keyed with the public key as PEM/DER/JWK/empty, foreign key under right/unknown/no kid, kid of another published key, embedded jwk, jku/x5u/x5c, payload edited, signature flipped/truncated/extended/stripped, extra/empty segments, JSON serialisations, garbage; validly signed tokens with absent/foreign/near-miss/array/non-string aud and absent/foreign/empty/near-miss/non-string nonce) on the login and the refresh path, mixed with honest answers, x header/preamble configurations x RSA/EC keys with and without alg among 1-3 published keys. Part 'each': every class x {login, refresh} x store x key kind, exhaustively. Non-trivial = the history served at least one unacceptable token and completed at least one honest exchange; distinct = distinct (config, behaviour tags, step verdicts).", len(forges)+len(typeForges)+len(acceptable))
+	r.Rule = fmt.Sprintf("token-endpoint answers from an adversarial grammar of %d forgery classes (alg none x3, HS256 keyed with the public key as PEM/DER/JWK/empty, foreign key under right/unknown/no kid, kid of another published key, embedded jwk, jku/x5u/x5c, payload edited, signature flipped/truncated/extended/stripped, extra/empty segments, JSON serialisations, garbage; validly signed tokens with absent/foreign/near-miss/array/non-string aud and absent/foreign/empty/near-miss/non-string nonce) on the login and the refresh path, mixed with honest answers, x header/preamble configurations x RSA/EC keys with and without alg among 1-3 published keys. Part 'each': every class x {login, refresh} x store x key kind, exhaustively. Part 'concurrent': two checks on one expired session under the harness-owned scheduler (all interleavings at store-call / token-call / key-lookup granularity) while the refresh is answered with an unacceptable but parseable, unexpired token. Non-trivial = the history served at least one unacceptable token and completed at least one honest exchange; distinct = distinct (config, behaviour tags, step verdicts).", len(forges)+len(typeForges)+len(acceptable))
 	r.Assumptions = []string{
 		"the oracle's verifier uses only crypto/* and encoding/json and is lenient (bound => must verify), so it never demands more than the statement",
 		"a panic while handling a forged token counts as 'not bound' here; crashes are C15's",
 	}
-	parts := map[string]func(*sim.Case){"histories": c02Prop, "each": c02Each}
+	parts := map[string]func(*sim.Case){"histories": c02Prop, "each": c02Each, "concurrent": c02Concurrent}
 	if r.Replay != "" {
 		r.ReplayFile(parts)
 		return
 	}
 	r.CheckKnown(parts)
 	r.Exhaustive("each", 0, c02Each)
+	r.Exhaustive("concurrent", 0, c02Concurrent)
 	r.Rapid("histories", r.N(12000, 200000), c02Prop)
 }
 
